@@ -491,6 +491,19 @@ var vkKinds = []vkKind{
 		m.Answer, m.Ns, m.Rcode = nil, nx.Ns, dns.RcodeSuccess
 		return true
 	}},
+	{"replay-nodata-own", 0, func(c *vkTamperCtx, m *dns.Msg) bool {
+		// a positive answer replaced by the zone's own, correctly signed NODATA for ANOTHER type at the
+		// SAME owner: SOA + the owner's NSEC/NSEC3, whose bitmap lists the type that was asked
+		if c.zone == nil || len(m.Answer) == 0 || m.Rcode != dns.RcodeSuccess || !strings.EqualFold(m.Answer[0].Header().Name, c.q.Name) || m.Answer[0].Header().Rrtype != c.q.Qtype {
+			return false
+		}
+		nd := c.u.Answer(c.zone.Apex, c.q.Name, dns.TypeNULL, true)
+		if nd.Rcode != dns.RcodeSuccess || len(nd.Answer) != 0 || len(nd.Ns) == 0 {
+			return false
+		}
+		m.Answer, m.Ns = nil, nd.Ns
+		return true
+	}},
 	{"forge-positive", 0, func(c *vkTamperCtx, m *dns.Msg) bool {
 		// a negative answer replaced by unsigned data
 		if len(m.Answer) > 0 || (m.Rcode != dns.RcodeNameError && !hasSOA(m.Ns)) {
